@@ -1046,6 +1046,30 @@ example :
     verifyRRSIGWork cv (fun _ => true) (fun _ => true) (fun _ => 9) [k1, k2] ⟨9, 9, 2⟩ [46] ⟨[r], [], [s]⟩ = (WRes.ok, 2) := by
   decide
 
+/-- **The surfaced error is nil exactly when `VerifyRRSIG` accepts.**
+`verifyRRSIGErr` walks RRsets, signatures and candidate keys in the code's
+order and returns the error the code returns (the last signature's error of
+the first RRset that fails, the last candidate key's error inside a
+signature, the structural errors before any cryptography); every run compares
+it with the implementation's error line by line. It is `ok` iff the
+declarative `verifyRRSIG` accepts. -/
+theorem verify_rrsig_error_nil_iff_accepts (cv : VKey → VSig → List VRec → Verdict) (inPeriod : VSig → Bool)
+    (supAlg : Nat → Bool) (tagOf : VKey → Nat) (keys : List VKey) (zone : Bytes) (m : VMsg)
+    (hcv : ∀ k k' sig set, keyIdent k = keyIdent k' → cv k sig set = cv k' sig set)
+    (hsig : ∀ s s' set, sigIdent s = sigIdent s' →
+      verifyOneSig cv inPeriod supAlg tagOf keys set s = verifyOneSig cv inPeriod supAlg tagOf keys set s') :
+    verifyRRSIGErr cv inPeriod supAlg tagOf keys zone m = VErr.ok ↔
+      verifyRRSIG (verifyOneSig cv inPeriod supAlg tagOf keys) keys.length zone m = true :=
+  verifyRRSIGErr_ok cv inPeriod supAlg tagOf keys zone m hcv hsig
+
+-- an RRset under an unsupported algorithm is refused with the algorithm error, before any key is looked at twice
+example :
+    let k : VKey := ⟨257, 3, 1, 1, [46], [1, 3]⟩
+    let s : VSig := ⟨1, 1, 1, 60, 2, 1, 0, 1, [46], [97, 46], [7]⟩
+    let r : VRec := ⟨[97, 46], 1, 1, [[97]], [1, 2, 3, 4], []⟩
+    verifyRRSIGErr (fun _ _ _ => Verdict.ok) (fun _ => true) (fun a => a == 15) (fun _ => 0) [k] [46] ⟨[r], [], [s]⟩ = VErr.alg := by
+  decide
+
 /-! ## VerifyDSWithWork: the work governor on the DS side -/
 
 /-- **Bounded work, DS side.** `VerifyDSWithWork` begins at most `g.budget` digests. -/
